@@ -41,6 +41,12 @@ def main(tier, seed, replay=None):
                         scalar=("f32" if j % 8 == 5 else "f64"), S=(2 if j % 3 == 0 else None))
         c["ops"] = states.observe_at(rng, c, nsets=1)
         cases.append(c)
+    # a builder-made function of EIGHT parameters (closure dispatch of the largest arities), next to its hand-written twin
+    for j in range(4 if tier == "quick" else 24):
+        c = gen_problem(rng, family=["sum8a", "sum8b"][j % 2], quant=8, builder_made=(j % 4 < 3), scalar="f64", N=6 + j % 3,
+                        ctor=["new", "mrhs", "new_parallel", "mrhs"][j % 4])
+        c["ops"] = states.observe_at(rng, c, nsets=1)
+        cases.append(c)
     # five to seven nonlinear parameters (beyond any small block size), all four constructors
     for j in range(6 if tier == "quick" else 36):
         # (small dyadic model values and few samples in the quick tier: seven exact projections per state are expensive)
